@@ -107,6 +107,18 @@ def Key.parse (s : List Char) : Res Key := Key.parseWith true s
 /-- the constructor of the pinned commit (kept for the witness theorem) -/
 def Key.parseHead (s : List Char) : Res Key := Key.parseWith false s
 
+/-- the lookup key `Handler::evalSingleArgument` builds for an element of type `stringArg`, i.e. for
+    the name that followed two dashes on the command line (handler.cpp, case `stringArg`, after the
+    `fix:` commit for the finding `one-char-long-key`): the name goes through the constructor for
+    key *specifications*, for which a lone character would be the short key, so a name of one
+    character gets its two dashes back (`ArgumentKey( "--" + ai->mArgString)`, the long key) -/
+def wordKey (name : List Char) : Res Key :=
+  Key.parse (if name.length = 1 then '-' :: '-' :: name else name)
+
+/-- the same for the pinned commit: `ArgumentKey( ai->mArgString)` for every name (kept for the
+    witness theorems; `--v` was looked up as the short key `v`) -/
+def wordKeyHead (name : List Char) : Res Key := Key.parse name
+
 /-- `operator==`: both chars set → compare the chars only; else both words non-empty → compare the
     words; all four empty → true; else false -/
 def Key.eq (a b : Key) : Bool :=
